@@ -836,7 +836,16 @@ func (q *checker) bcheckWhile(n *a.While) error {
 		}
 	}
 
-	// Check the while condition.
+	// Check the while condition, assuming only the pre and inv (invariant)
+	// conditions: it is re-evaluated before every iteration, not just the
+	// first one, so the facts that hold on entry prove nothing about it.
+	q.facts = q.facts[:0]
+	for _, o := range n.Asserts() {
+		if o.AsAssert().Keyword() == t.IDPost {
+			continue
+		}
+		q.facts.appendFact(o.AsAssert().Condition())
+	}
 	if _, err := q.bcheckExpr(n.Condition(), 0); err != nil {
 		return err
 	}
